@@ -21,7 +21,7 @@ def segs(p):
 
 
 def overlapping(paths):
-    ss = [segs(p) for p in paths]
+    ss = [segs(p) for p in paths]   # segs drops empty segments
     return any(a != b and a == b[:len(a)] for a in ss for b in ss)
 
 
@@ -49,7 +49,9 @@ def path_lists(tier):
                 for perm in itertools.permutations([p, q, r1, r2]):
                     out.append(list(perm))
     # the root path is a prefix of every other path
-    for l in (["/", "/a"], ["/a", "/"], ["/", "/a/b", "/b"], ["/b", "/a/b", "/"]):
+    for l in (["/", "/a"], ["/a", "/"], ["/", "/a/b", "/b"], ["/b", "/a/b", "/"],
+              # other spellings of a prefix: empty segments do not count
+              ["/a", "//a/b"], ["//a/b", "/a"], ["/a/", "/a/b"], ["/a/b//", "/a"], ["/b", "/a//b/a", "/a/b"]):
         out.append(l)
     seen, res = set(), []
     for l in out:
